@@ -16,6 +16,13 @@ Lemma TEMP_ne_0 : TEMP <> 0%N. Proof. vm_compute. congruence. Qed.
 
 Lemma rget_set_heap s a v r : rget (set_heap s a v) r = rget s r. Proof. reflexivity. Qed.
 
+Lemma block_not_stack p : block_ok p -> in_stack p = false.
+Proof.
+  intros (_ & H). unfold in_heap, in_stack, STACK_LIMIT, STACK_TOP, HEAP_BASE, HEAP_SIZE in *.
+  apply andb_true_iff in H as [H1 H2]. apply Z.leb_le in H1, H2.
+  apply andb_false_iff. left. apply Z.leb_gt. lia.
+Qed.
+
 (* ---------- single steps on a heap block ---------- *)
 Section HeapSteps.
 Variable im : image.
@@ -26,7 +33,7 @@ Lemma step_ADDIM_heap s r p j :
     Next (set_flags (set_heap s p (wrap (hget (heap s) p + j))) None).
 Proof.
   intros R B Fj. cbn [step]. rewrite Fj. unfold ea, need. rewrite R.
-  change REFERENCE_COUNT_OFFSET with 0. rewrite Z.add_0_r. unfold withm.
+  change REFERENCE_COUNT_OFFSET with 0. rewrite Z.add_0_r. cbv zeta. rewrite (block_not_stack p) by assumption. unfold withm.
   rewrite mload_heap by exact B. cbv beta iota. rewrite mstore_heap by exact B. reflexivity.
 Qed.
 
@@ -35,7 +42,7 @@ Lemma step_CMPIM_heap s r p :
   step im (CMPIM r REFERENCE_COUNT_OFFSET 0) s = Next (set_flags s (Some (hget (heap s) p, 0))).
 Proof.
   intros R B. cbn [step]. change (fits32 0) with true. cbv iota. unfold ea, need. rewrite R.
-  change REFERENCE_COUNT_OFFSET with 0. rewrite Z.add_0_r. unfold withm.
+  change REFERENCE_COUNT_OFFSET with 0. rewrite Z.add_0_r. cbv zeta. rewrite (block_not_stack p) by assumption. unfold withm.
   rewrite mload_heap by exact B. reflexivity.
 Qed.
 
@@ -44,7 +51,7 @@ Lemma step_MOVS_heap s a r p f :
   step im (MOVS a r NEXT_ELEMENT_OFFSET) s = Next (set_heap s p f).
 Proof.
   intros R B A. cbn [step]. unfold ea, need. rewrite R.
-  change NEXT_ELEMENT_OFFSET with 0. rewrite Z.add_0_r. unfold withm.
+  change NEXT_ELEMENT_OFFSET with 0. rewrite Z.add_0_r. cbv zeta. rewrite (block_not_stack p) by assumption. unfold withm.
   rewrite A. rewrite mstore_heap by exact B. reflexivity.
 Qed.
 
